@@ -92,3 +92,41 @@ def clear_curve(connection, kind):
         connection.execute('DELETE FROM rising_interval_zeta')
         connection.execute('DELETE FROM rising_interval')
     connection.commit()
+
+
+def make_curves_db(ctx, case, path, curvature=None):
+    """Dataset with both master curves assembled (real code, function level),
+    written to `path`.  Returns an error key or None."""
+    import spowtd.set_curvature as sc
+
+    connection, _, exc = build_dataset(ctx, case, 'function')
+    if exc is not None:
+        if connection is not None:
+            connection.close()
+        return 'dataset-could-not-be-built'
+    try:
+        for kind in ('rise', 'recession'):
+            exc = run_curve(connection, kind)
+            if exc is not None:
+                key, _ = classify_outcome(exc)
+                return kind + ':' + key
+        if curvature is not None:
+            sc.set_curvature(connection, curvature)
+            connection.commit()
+        for f in (path, path + '-journal'):
+            if os.path.exists(f):
+                os.remove(f)
+        disk = sqlite3.connect(path)
+        connection.backup(disk)
+        disk.close()
+    finally:
+        connection.close()
+    return None
+
+
+def write_yaml(path, params):
+    import yaml
+
+    with open(path, 'w') as f:
+        yaml.safe_dump(params, f)
+    return path
